@@ -1,7 +1,7 @@
 #!/bin/bash
 # usage: tools/seed2.sh <ID> <a|b> [check ids...] — confirm variant a/b of a two-change seed (Go demo_test.go or bash demo.sh) in a fresh scratch
 # worktree and run the check(s) against it
-ID=$1; V=$2; shift 2; OUT=/tmp/seed/$ID.out/$V; W=/tmp/sv-$ID$V
+ID=$1; V=$2; shift 2; OUT=${SEEDROOT:-/tmp/seed}/$ID.out/$V; W=/tmp/sv-$ID$V
 export GOPROXY=off; unset GOFLAGS
 [ -f $OUT/patch.diff ] || { echo "$ID$V: no patch.diff"; exit 3; }
 git -C /repo worktree remove --force $W 2>/dev/null; rm -rf $W
